@@ -32,13 +32,25 @@ var fragments = []string{"\n", "\r\n", "\t", " ", ">", "@", "+", "#", "##", ".",
 	"##DNA", "##end-DNA", "##Type", "##date", ";", ",", "\x00", "\xff", "9223372036854775808", "+\n", "@a\nAC\n+\nII\n", ">a\nAC\n", "c\t1\t2\tn\t0\t+\t1\t2\t0\t1\t1\t0\n", "s\tp\tf\t1\t2\t.\t+\t.\tT v\n"}
 
 func genBytes(t *rapid.T) bytesCase {
-	c := bytesCase{Reader: rapid.SampledFrom(append(append([]string{}, Readers...), "fasta-q", "fastq-plain")).Draw(t, "reader")}
+	c := bytesCase{Reader: rapid.SampledFrom(append(append(append([]string{}, Readers...), "fasta-q"), FastqVariants...)).Draw(t, "reader")}
 	n := rapid.IntRange(0, 40).Draw(t, "nfrag")
 	var b bytes.Buffer
 	for i := 0; i < n; i++ {
 		switch rapid.IntRange(0, 19).Draw(t, "frag-kind") {
 		case 0, 1, 2, 3, 4:
 			b.Write(rapid.SliceOfN(rapid.Byte(), 0, 6).Draw(t, "raw"))
+		case 6:
+			// a complete FASTQ record whose quality line holds arbitrary bytes (same length as the sequence)
+			n := rapid.IntRange(1, 8).Draw(t, "rec-len")
+			b.WriteString("@r\n" + strings.Repeat("A", n) + "\n+\n")
+			for k := 0; k < n; k++ {
+				q := byte(rapid.IntRange(0, 255).Draw(t, "qbyte"))
+				if q == '\n' || q == '\r' || q == ' ' || q == '\t' || q == '\v' || q == '\f' {
+					q = 0xc5
+				}
+				b.WriteByte(q)
+			}
+			b.WriteString("\n")
 		case 5:
 			// a run long enough to cross the readers' 4096-byte line buffer
 			ch := rapid.SampledFrom([]byte{'A', 'I', '\t', '#', '9'}).Draw(t, "long-ch")
@@ -101,7 +113,7 @@ func (c mutCase) readers() []string {
 	case "fasta":
 		return []string{"fasta", "fasta-q"}
 	case "fastq":
-		return []string{"fastq", "fastq-plain"}
+		return append([]string{"fastq"}, FastqVariants...)
 	case "bed":
 		return []string{"bed3", "bed4", "bed5", "bed6", "bed12"}
 	}
